@@ -192,21 +192,30 @@ def _worker_init(prop):
 
 
 def _worker_run(chunk):
+    """for each line: (canonical result of the real code, failure text of the property's own predicate or None)"""
     out = []
     for line in chunk:
+        pred = None
         try:
             signal.alarm(getattr(_PLUGIN, 'LINE_TIMEOUT', 60))
             try:
                 res = _PLUGIN.run_impl(line)
+                if hasattr(_PLUGIN, 'check_impl'):
+                    try:
+                        pred = _PLUGIN.check_impl(line, res)
+                    except _Timeout:
+                        raise
+                    except Exception as e:
+                        res = 'HARNESS:check_impl:' + type(e).__name__ + ':' + str(e)[:200]
             finally:
                 signal.alarm(0)
         except _Timeout:
-            res = 'TIMEOUT'
+            res = 'TIMEOUT'; pred = 'the real code did not return within the per-line time limit'
         except RecursionError:
             res = 'ERR'
         except BaseException as e:   # harness bug, not an exception of the code under test (those are caught in run_impl)
             res = 'HARNESS:' + type(e).__name__ + ':' + str(e)[:200]
-        out.append(res)
+        out.append((res, pred))
     return out
 
 
@@ -260,14 +269,7 @@ def evaluate(plugin, driver, lines):
     impl = run_impl_lines(plugin.ID, lines)
     drv = run_driver(driver, lines)
     res = []
-    for line, p, (m, s) in zip(lines, impl, drv):
-        pred = None
-        if not p.startswith('HARNESS:') and p != 'TIMEOUT' and hasattr(plugin, 'check_impl'):
-            try:
-                pred = plugin.check_impl(line, p)
-            except Exception as e:
-                pred = None
-                p = 'HARNESS:check_impl:' + type(e).__name__ + ':' + str(e)[:200]
+    for line, (p, pred), (m, s) in zip(lines, impl, drv):
         kinds = []
         if p.startswith('HARNESS:') or m == '?':
             kinds.append('harness')
